@@ -1,0 +1,8 @@
+//go:build verif
+
+package inode
+
+import "github.com/mit-pdos/go-journal/common"
+
+// VerifBlks exposes the block pointers of a decoded inode.
+func (ip *Inode) VerifBlks() []common.Bnum { return ip.blks }
